@@ -575,8 +575,6 @@ def classify(pb, group):
         d -= 700000
         hi, step = d // 10000, d % 10000
         ops = group[hi][:step + 1] if hi < len(group) else []
-        if any(o[0] == "setcode" and o[2] is None for o in ops):
-            return "known", "C13-setcode-nil", "SetCode(nil) leaves code_hash = keccak(empty) next to the old code"
         return "violation", None, "committed code hash is not the Keccak of the stored code (raw dump at step %d of history %d)" % (step, hi)
     strict = d >= 500000
     if strict:
@@ -588,10 +586,6 @@ def classify(pb, group):
         if any(o[0] in ("set", "add") and o[3] == b"" for o in ops):
             return "known", "C13-empty-exists-flag", "existence flag / query entry of an empty value depends on the layer"
         return "violation", None, "existence flag or query content wrong at step %d of history %d (%r)" % (step, hi, last)
-    if last is not None and last[0] == "getcommitted":
-        return "known", "C13-getcommitted", "GetCommittedState does not return the committed value"
-    if any(o[0] == "setcode" and o[2] is None for o in ops):
-        return "known", "C13-setcode-nil", "SetCode(nil) keeps the old code"
     if any(o[0] in ("set", "add") and not valid_utf8(o[2]) for o in ops) and any(o[0] == "rollback" for o in ops):
         return "known", "C12-journal-nonutf8-key", "rollback with a storage key that is not valid UTF-8"
     return "violation", None, "read disagrees with the specification at step %d of history %d (%r)" % (step, hi, last)
